@@ -116,6 +116,8 @@ def expr(e):
         if f == "isinstance" and len(a) == 2 and isinstance(a[1], ast.Name) and a[1].id == "int":
             return "(.isInt %s)" % expr(a[0])
         if f == "len" and len(a) == 1:
+            if isinstance(a[0], ast.Constant) and isinstance(a[0].value, bytes):
+                return "(.len (.strc [%s]))" % ", ".join(str(b) for b in a[0].value)   # length of a bytes literal
             return "(.len %s)" % expr(a[0])
         if f == "int" and len(a) == 1:
             x = a[0]
@@ -322,7 +324,77 @@ def generate_dap(repo):
     return "\n".join(parts)
 
 
-GENERATORS = [("SliceSrc.lean", generate), ("DapSrc.lean", generate_dap)]
+def pad_exprs(fn, expected):
+    """every `-x % c` (x a name, c an int literal) of a function, in source order: `@pad<i> = -x % c`"""
+    found = [n for n in ast.walk(fn) if isinstance(n, ast.BinOp) and isinstance(n.op, ast.Mod)
+             and isinstance(n.left, ast.UnaryOp) and isinstance(n.left.op, ast.USub)
+             and isinstance(n.left.operand, ast.Name) and is_intconst(n.right)]
+    found.sort(key=lambda n: (n.lineno, n.col_offset))
+    if len(found) != expected:
+        raise Untranslatable("expected %d padding expressions `-x %% c`, found %d" % (expected, len(found)))
+    parts = ["(.assign %s %s)" % (lstr("@pad%d" % i), expr(x)) for i, x in enumerate(found)]
+    out = parts[-1]
+    for q in reversed(parts[:-1]):
+        out = "(.seq %s %s)" % (q, out)
+    return out
+
+
+def generate_dods(repo):
+    """responses/dods.py (+ the reading side in handlers/dap.py): XDR size and padding arithmetic (C05)"""
+    dods = parse_src(repo, "responses", "dods.py")
+    dap = parse_src(repo, "handlers", "dap.py")
+
+    def is_isinstance(test, var, cls):
+        return isinstance(test, ast.Call) and isinstance(test.func, ast.Name) and test.func.id == "isinstance" \
+            and len(test.args) == 2 and isinstance(test.args[0], ast.Name) and test.args[0].id == var \
+            and isinstance(test.args[1], ast.Name) and test.args[1].id == cls
+
+    def calc_base():
+        fn = find_function(dods, "calculate_size")
+        lp = loops(fn)[-1]                                  # `for var in walk(dataset):`
+        branch = [n for n in ast.walk(lp) if isinstance(n, ast.If) and is_isinstance(n.test, "var", "BaseType")]
+        if len(branch) != 1 or branch[0].orelse:
+            raise Untranslatable("expected one `elif isinstance(var, BaseType):` without else")
+        body = [x for x in branch[0].body
+                if not (isinstance(x, ast.Assign) and isinstance(x.targets[0], ast.Name)
+                        and x.targets[0].id == "DAP2_dtype")]   # `DAP2_dtype = DAP2_response_dtypemap(…)`: an input
+        if len(body) != len(branch[0].body) - 1:
+            raise Untranslatable("expected exactly one `DAP2_dtype = …` assignment")
+        with abstracting({"var.shape": "var.shape", "DAP2_dtype == np.ubyte": "@is_ubyte",
+                          "DAP2_dtype.itemsize": "@itemsize"}):
+            return stmts(body, None)
+
+    def calc_tail():
+        fn = find_function(dods, "calculate_size")
+        tail = [x for x in fn.body if isinstance(x, (ast.AugAssign, ast.Return))]
+        if len(tail) != 2:
+            raise Untranslatable("expected `length += …; return length` after the loop")
+        with abstracting({"len(''.join(dds(dataset)))": "@dds_len"}):
+            return stmts(tail, None, tail=True)
+
+    def dods_pads():
+        return "(.seq %s %s)" % (pad_exprs(find_function(dods, "_sequencetype"), 1).replace("@pad0", "@seqpad0"),
+                                 pad_exprs(find_function(dods, "_basetype"), 2))
+
+    def dap_pads():
+        return pad_exprs(find_function(dap, "convert_stream_to_list"), 3)
+
+    parts = [HEADER,
+             block("src_calculate_size_base", "responses/dods.py calculate_size: body of `elif isinstance(var, BaseType):` "
+                   "without `DAP2_dtype = DAP2_response_dtypemap(…)`; inputs: `var.shape`, `@is_ubyte` for "
+                   "`DAP2_dtype == np.ubyte`, `@itemsize` for `DAP2_dtype.itemsize`", calc_base),
+             block("src_calculate_size_tail", "responses/dods.py calculate_size: `length += len(dds) + len(b\"Data:\\n\"); "
+                   "return length` (the DDS length is an input)", calc_tail),
+             block("src_dods_paddings", "responses/dods.py: the padding counts `-length % 4` of _sequencetype (1) and "
+                   "_basetype (2)", dods_pads),
+             block("src_convert_stream_paddings", "handlers/dap.py convert_stream_to_list: the three `stream.read(-k % 4)` "
+                   "counts", dap_pads),
+             "end Pydap.Gen\n"]
+    return "\n".join(parts)
+
+
+
+GENERATORS = [("SliceSrc.lean", generate), ("DapSrc.lean", generate_dap), ("DodsSrc.lean", generate_dods)]
 
 
 def write(repo, verif):
